@@ -9,6 +9,7 @@ import AthlibVerif.Drv.Codes
 import AthlibVerif.Drv.Junior
 import AthlibVerif.Drv.Wma
 import AthlibVerif.Drv.Times
+import AthlibVerif.Drv.Perf
 /-!
 Line-protocol driver: one request per line (`area<TAB>cmd<TAB>arg…`), one reply per line.
 Imports only the import-free models and the generated data, so it also links as `lean_exe`.
@@ -30,6 +31,7 @@ def handle (st : DrvState) (line : String) : DrvState × String :=
   | "jr" :: rest => (st, handleJunior rest)
   | "wma" :: rest => (st, handleWma rest)
   | "tm" :: rest => (st, handleTimes rest)
+  | "pf" :: rest => (st, handlePerf rest)
   | "hj" :: rest => let (c, out) := handleHJ st.hj rest; ({ st with hj := c }, out)
   | _ => (st, "bad-area")
 
